@@ -113,6 +113,7 @@ pub fn run_a(sc: &ScenarioA, keep_events: bool) -> OutcomeA {
     sim.poll_interval = sc.knobs.poll_interval;
     sim.initial_hash_mb = sc.knobs.initial_hash_mb;
     sim.tau_ps = sc.knobs.tau_ps;
+    sim.read_step_ns = sc.knobs.clock_read_step_ns;
     sim.clock_events = sc
         .clock_events
         .iter()
